@@ -11,7 +11,7 @@ def WfW (w : AW) : Prop :=
   ∀ f t, t ∈ (w.getF f).pts → (Dict.keys t.x).Nodup ∧ (Dict.keys t.g).Nodup ∧ (Dict.keys t.v).Nodup
 
 /-- the triplet is recorded at the point `x` -/
-def AtPoint (t : ATriple) (x : PDict) : Prop := Dict.eqv t.x x = true ∨ t.x = Dict.prune x
+def AtPoint (t : ATriple) (x : PDict) : Prop := Dict.eqv t.x (Dict.prune x) = true ∨ t.x = Dict.prune x
 
 theorem mem_of_find? {α : Type} (p : α → Bool) (l : List α) (a : α) (h : l.find? p = some a) : a ∈ l ∧ p a = true := by
   induction l with
